@@ -9,7 +9,7 @@ import os
 import runpy
 import sys
 
-from harness import tlc, par, materialize as mat
+from harness import core, tlc, par, materialize as mat
 from harness.materialize import num
 from harness.dsreplay import quiet, exc_site, close
 
@@ -21,7 +21,7 @@ def run_script(name, argv):
     sys.argv = [name] + argv
     try:
         with quiet() as out:
-            runpy.run_path("/repo/scripts/%s.py" % name, run_name="__main__")
+            runpy.run_path(os.path.join(core.REPO, "scripts", "%s.py" % name), run_name="__main__")
     finally:
         sys.argv = old
 
